@@ -22,7 +22,7 @@ BUDGET = {'quick': 40, 'thorough': 300}
 BLOCK = 8
 STREAM_ORDER = ['ops', 'guards', 'faults', 'chart', 'cfg']
 RULE = ('well-formed chart with contracts reading __old__, history states, sends and delayed events; a seeded script of queue (with '
-        'delays) / clock advance / execute_once with drawn guard outcomes and some contract conditions made false; in a third of the runs a property statechart that reads its synchronised clock is bound and is part of the snapshot; in a third of the runs guards log after() and idle(); in a third some sent events carry the list of the context itself as a parameter; in a third the interpreter is bound to a method of a component object that is also reachable from its context; in a quarter of the runs the clock is a started sismic SimulatedClock (speed 1, 2 or 1/2) fed by a scripted wall time. The "crash" is a '
+        'delays) / clock advance / execute_once with drawn guard outcomes and some contract conditions made false; in a third of the runs a property statechart that reads its synchronised clock is bound and is part of the snapshot; in a third of the runs guards log after() and idle(); in a third some sent events carry the list of the context itself as a parameter; in a third the interpreter is bound to a method of a component object that is also reachable from its context; in a quarter the context holds a counter named __n__ that entry code increments; in a quarter of the runs the clock is a started sismic SimulatedClock (speed 1, 2 or 1/2) fed by a scripted wall time. The "crash" is a '
         'snapshot (pickle.dumps+loads, and copy.deepcopy) taken at a macro-step boundary: at EVERY boundary b of the script (thorough) or 6 '
         'drawn boundaries (quick), and a second time a few steps later (restore, continue, crash again). The restored interpreter and the '
         'original are continued in lock-step and both must reproduce the undisturbed control run: macro steps, configurations, context, '
